@@ -184,3 +184,145 @@ def functions_by(facts, drivers=None):
             continue
         seen.setdefault(fn["pat"], fn)
     return seen
+
+
+# ---------------------------------------------------------------------------------------------------------------------------
+# canonical text of EXPECTED expressions: rules write the expected form in any orientation and pass it through C(), which
+# applies the same conventions as vlib/normalize.py (comparison orientation, sorted min/max arguments, != for !(==))
+
+_FLIP = {"<": ">", ">": "<", "<=": ">=", ">=": "<=", "==": "==", "!=": "!="}
+_BINOPS = ["||", "&&", "==", "!=", "<=", ">=", "<<", ">>", "<", ">", "+", "-", "*", "/", "%", "&", "|", "^", "+=", "-=", "=", "|=", "&="]
+
+
+def _split_top(s, seps):
+    """split s at the first top-level occurrence of one of seps (longest first); returns (l, op, r) or None"""
+    depth = 0
+    i = 0
+    n = len(s)
+    while i < n:
+        ch = s[i]
+        if ch in "([":
+            depth += 1
+        elif ch in ")]":
+            depth -= 1
+        elif depth == 0:
+            for op in sorted(seps, key=len, reverse=True):
+                if s.startswith(op, i) and i > 0:
+                    # do not split inside identifiers / arrows / template brackets
+                    if op in ("<", ">") and (s[i - 1] == "-" or (i + 1 < n and s[i + 1] in "<>=" ) or s[i - 1] in "<>"):
+                        continue
+                    if op in ("-", "+") and (s[i - 1] in "(,=<>!&|+-*/%^" ):
+                        continue
+                    if op == "=" and (s[i - 1] in "=!<>+-|&" or (i + 1 < n and s[i + 1] == "=")):
+                        continue
+                    if op in ("&", "|") and ((i + 1 < n and s[i + 1] == op) or s[i - 1] == op or (i + 1 < n and s[i + 1] == "=")):
+                        continue
+                    return s[:i], op, s[i + len(op):]
+        i += 1
+    return None
+
+
+def C(s):
+    """canonical form of an expected expression text (fully parenthesised binary operators as printed by txt())"""
+    s = s.replace(" ", "")
+    if not s:
+        return s
+    # prefix not
+    if s.startswith("!(") and _matching(s, 1) == len(s) - 1:
+        inner = C(s[1:])
+        if inner.startswith("(") and _matching(inner, 0) == len(inner) - 1:
+            sp = _split_top(inner[1:-1], ["==", "!="])
+            if sp and sp[1] in ("==", "!="):
+                return "(%s%s%s)" % (sp[0], "!=" if sp[1] == "==" else "==", sp[2])
+        return "!" + inner
+    if s.startswith("(") and _matching(s, 0) == len(s) - 1:
+        body = s[1:-1]
+        for group in (["||"], ["&&"], ["==", "!=", "<=", ">=", "<", ">"], ["=", "+=", "-=", "|=", "&="], ["<<", ">>"], ["+", "-"], ["*", "/", "%"], ["&", "|", "^"]):
+            sp = _split_top(body, group)
+            if sp:
+                l, op, r = C(sp[0]), sp[1], C(sp[2])
+                if op in _FLIP and l > r:
+                    l, r, op = r, l, _FLIP[op]
+                return "(%s%s%s)" % (l, op, r)
+        return "(" + C(body) + ")"
+    # call: name(args)
+    m = _call_split(s)
+    if m:
+        name, args, tail = m
+        args = [C(a) for a in args]
+        if name.split(".")[-1] in ("min", "max") and len(args) == 2:
+            args = sorted(args)
+        return "%s(%s)%s" % (name, ",".join(args), C(tail) if tail.startswith(".") is False and tail else tail)
+    return s
+
+
+def _matching(s, i):
+    depth = 0
+    for j in range(i, len(s)):
+        if s[j] in "([":
+            depth += 1
+        elif s[j] in ")]":
+            depth -= 1
+            if depth == 0:
+                return j
+    return -1
+
+
+def _call_split(s):
+    i = s.find("(")
+    if i <= 0 or not (s[i - 1].isalnum() or s[i - 1] in "_>"):
+        return None
+    j = _matching(s, i)
+    if j < 0:
+        return None
+    name, inner, tail = s[:i], s[i + 1:j], s[j + 1:]
+    args, depth, cur = [], 0, ""
+    for ch in inner:
+        if ch in "([":
+            depth += 1
+        elif ch in ")]":
+            depth -= 1
+        if ch == "," and depth == 0:
+            args.append(cur)
+            cur = ""
+        else:
+            cur += ch
+    if cur or args:
+        args.append(cur)
+    return name, args, tail
+
+
+def ctxt(n, inl=None):
+    """canonical text of a node after inlining locals: the orientation chosen by the normaliser is by the text *before* inlining, so
+    rules that inline re-canonicalise the result before comparing it with C(expected)"""
+    return C(txt(n, inl))
+
+
+def eq_const(n):
+    """for `x == CONST` / `CONST != x` returns (x node, constant value, operator) whichever side the constant is on"""
+    n = strip(n)
+    if isinstance(n, dict) and n.get("k") == "Bin" and n.get("op") in ("==", "!="):
+        for a, b in ((n["l"], n["r"]), (n["r"], n["l"])):
+            sb = strip(b)
+            if isinstance(sb, dict) and "v" in sb and sb.get("k") not in ("Call", "OpCall"):
+                return a, sb["v"], n["op"]
+    return None
+
+
+def gt_pair(c):
+    """for an ordering comparison returns (greater side, smaller side, strict?) independent of how it is written"""
+    c = strip(c)
+    if not isinstance(c, dict) or c.get("k") != "Bin":
+        return None
+    op = c.get("op")
+    if op in (">", ">="):
+        return c["l"], c["r"], op == ">"
+    if op in ("<", "<="):
+        return c["r"], c["l"], op == "<"
+    return None
+
+
+def loops_of(n):
+    out = []
+    walk(n, lambda x: out.append(x) if x.get("k") in ("For", "While", "Do", "RangeFor") else None)
+    return out
